@@ -232,6 +232,56 @@ func tokenizeOnTwice(t tokenizers.ITokenizer, text string) (first, second tokRes
 	return first, second
 }
 
+// tokenizeWithNoopSetters iterates with HasNextToken()/NextToken() and, between the look-ahead and
+// the fetch, calls setters that change nothing: mode 1 re-applies the current option set, mode 2
+// re-registers the state the table already holds for a few characters (and, for CSV, hands the current
+// separator and quote lists back in). The stream must be what an undisturbed iteration gives.
+func tokenizeWithNoopSetters(t tokenizers.ITokenizer, opts int, text string, mode int) (res tokResult) {
+	sc := newCountScanner(text)
+	defer func() {
+		if p := recover(); p != nil {
+			res.panic = p
+		}
+		res.unreads = sc.unreads
+	}()
+	t.SetReader(sc)
+	limit := 4*len([]rune(text)) + 8
+	noop := func() {
+		switch mode {
+		case 1:
+			setOptions(t, opts)
+		case 2:
+			type table interface {
+				GetCharacterState(symbol rune) tokenizers.ITokenizerState
+				SetCharacterState(fromSymbol rune, toSymbol rune, state tokenizers.ITokenizerState)
+			}
+			if tb, ok := t.(table); ok {
+				for _, ch := range []rune{'a', ',', '"', ' ', '<', 0x100} {
+					tb.SetCharacterState(ch, ch, tb.GetCharacterState(ch))
+				}
+			}
+			if ct, ok := t.(*csv.CsvTokenizer); ok {
+				ct.SetFieldSeparators(append([]rune{}, ct.FieldSeparators()...))
+				ct.SetQuoteSymbols(append([]rune{}, ct.QuoteSymbols()...))
+			}
+		}
+	}
+	for {
+		more := t.HasNextToken()
+		noop()
+		tk := t.NextToken()
+		if tk == nil {
+			break
+		}
+		_ = more
+		res.toks = append(res.toks, tokRec{tk.Type(), tk.Value(), tk.Line(), tk.Column()})
+		if len(res.toks) > limit {
+			panic(budgetExceeded{})
+		}
+	}
+	return res
+}
+
 func tokenize(kind string, opts int, text string) tokResult {
 	t := newTokenizer(kind)
 	setOptions(t, opts)
